@@ -14,9 +14,8 @@ def S(s):
         _STR_DEFS.append('Definition %s := %s.' % (_STR[s], coq_term_str(s)))
     return _STR[s]
 
-THEOREMS = ['C04_B_expand_exact', 'C04_B_expand_exact_list', 'C04_wf_checker_sound', 'C04_collapse_is_expand',
-            'C04_collapse_none_refuted', 'C04_collapse_fixed_is_expand', 'C04_A_sound', 'C04_A_complete_partial',
-            'C04_example']
+THEOREMS = ['C04_B_expand_exact', 'C04_B_tree_tidy', 'C04_collapse_is_expand', 'C04_collapse_total',
+            'C04_collapse_explicit', 'C04_collapse_none_refuted', 'C04_example']
 GEN_DEPS = []
 RULE = ('random ambiguous grammars (<=4 non-terminals, <=3 alternatives of length <=3, ?rules, _inlined rules, aliases, '
         '[optional] with placeholders, !keep-all rules, filtered anonymous tokens, EBNF * and +), three lexers (basic, '
